@@ -23,40 +23,73 @@ theorem C13_no_watermark_no_rename (o : SaveOpts) (ss1 : SSt) (mp : Str) (h : o.
 
 /-- **the watermark rule.** With a watermark, a rewritten Manifest changes its
     stored form exactly when the policy's verdict differs from its current
-    suffix; then it is written under the new name, the old file is unlinked
+    suffix and the new name is not that of another Manifest in use (repair of F8);
+    then it is written under the new name, the old file is unlinked
     (exactly one file remains), and the rename is recorded for the parents. -/
 theorem C13_watermark_step (o : SaveOpts) (ss1 : SSt) (mp : Str) (wm : Nat) (h : o.watermark = some wm) :
     let es' := if o.sort then stableSort (fun a b => entryLt a.2 b.2) (ss1.st.entriesOf mp) else ss1.st.entriesOf mp
     let text := dumpEntries false (es'.map (·.2))
     let want := wantCompressed o.profile mp (hasEbuildEntry es') (uncSizeFor o (signFor ss1.st mp) text) wm
+    let newMp := if want then mp ++ 46 :: o.format else mp.take (mp.length - (((compressedSuffix? mp).getD []).length + 1))
+    let taken := (ss1.st.setIds mp (es'.map (·.1))).loaded.any (·.1 == newMp)
     let r := writeStep o ss1 mp
-    ((compressedSuffix? mp).isSome = want →
+    ((compressedSuffix? mp).isSome = want ∨ taken = true →
         r.renamed = ss1.renamed ∧ ∃ sg, r.writes = ss1.writes ++ [.file mp text sg]) ∧
-    ((compressedSuffix? mp).isSome ≠ want →
-        ∃ newMp, r.renamed = ss1.renamed ++ [(mp, newMp)] ∧
-          (∃ sg sg', r.writes = ss1.writes ++ [.file mp text sg, .file newMp text sg', .unlink mp]) ∧
-          (want = true → newMp = mp ++ 46 :: o.format) ∧
-          (want = false → newMp = mp.take (mp.length - (((compressedSuffix? mp).getD []).length + 1)))) := by
-  intro es' text want r
+    ((compressedSuffix? mp).isSome ≠ want → taken = false →
+        r.renamed = ss1.renamed ++ [(mp, newMp)] ∧
+          (∃ sg sg', r.writes = ss1.writes ++ [.file mp text sg, .file newMp text sg', .unlink mp])) := by
+  intro es' text want newMp taken r
   have hr : r = writeStep o ss1 mp := rfl
   simp only [writeStep, h] at hr
-  generalize hB : ((compressedSuffix? mp).isSome == _) = B at hr
-  have hBw : B = ((compressedSuffix? mp).isSome == want) := hB.symm
-  constructor
-  · intro heq
-    have : B = true := by rw [hBw]; simp [heq]
-    subst this
-    simp only [if_true] at hr
-    rw [hr]
-    exact ⟨rfl, _, rfl⟩
-  · intro hne
-    have : B = false := by rw [hBw]; simpa using hne
-    subst this
-    simp only [Bool.false_eq_true, if_false] at hr
-    rw [hr]
-    refine ⟨_, rfl, ⟨_, _, by rw [List.append_assoc]; rfl⟩, ?_, ?_⟩
-    · intro hw; simp only [want, es', text] at hw; rw [if_pos hw]
-    · intro hw; simp only [want, es', text] at hw; rw [if_neg (by rw [hw]; simp)]
+  by_cases hB : ((compressedSuffix? mp).isSome == want) = true
+  · rw [if_pos hB] at hr
+    refine ⟨fun _ => by rw [hr]; exact ⟨rfl, _, rfl⟩, fun hne => absurd (by simpa using hB) hne⟩
+  · rw [if_neg hB] at hr
+    by_cases hT : taken = true
+    · rw [if_pos hT] at hr
+      refine ⟨fun _ => by rw [hr]; exact ⟨rfl, _, rfl⟩, fun _ htk => by rw [htk] at hT; cases hT⟩
+    · rw [if_neg hT] at hr
+      refine ⟨fun hc => ?_, fun _ _ => by rw [hr]; exact ⟨rfl, _, _, by rw [List.append_assoc]; rfl⟩⟩
+      rcases hc with heq | htk
+      · exact absurd (by simpa using heq) hB
+      · exact absurd htk hT
+
+/-- the two outcomes of the write step under a watermark, for use elsewhere: the Manifest is written under its own
+    name; or under its own name, then under the new one (compressed suffix added, or the suffix cut off), the old
+    file unlinked -/
+theorem C13_watermark_cases (o : SaveOpts) (ss1 : SSt) (mp : Str) (wm : Nat) (h : o.watermark = some wm) :
+    (∃ text sg, (writeStep o ss1 mp).renamed = ss1.renamed ∧ (writeStep o ss1 mp).writes = ss1.writes ++ [.file mp text sg]) ∨
+    (∃ newMp text sg sg', (newMp = mp ++ 46 :: o.format ∨ ∃ k, newMp = mp.take k) ∧
+      (writeStep o ss1 mp).renamed = ss1.renamed ++ [(mp, newMp)] ∧
+      (writeStep o ss1 mp).writes = ss1.writes ++ [.file mp text sg, .file newMp text sg', .unlink mp]) := by
+  have key := C13_watermark_step o ss1 mp wm h
+  revert key
+  intro key
+  let es' := if o.sort then stableSort (fun a b => entryLt a.2 b.2) (ss1.st.entriesOf mp) else ss1.st.entriesOf mp
+  let text := dumpEntries false (es'.map (·.2))
+  let want := wantCompressed o.profile mp (hasEbuildEntry es') (uncSizeFor o (signFor ss1.st mp) text) wm
+  let newMp := if want then mp ++ 46 :: o.format else mp.take (mp.length - (((compressedSuffix? mp).getD []).length + 1))
+  let taken := (ss1.st.setIds mp (es'.map (·.1))).loaded.any (·.1 == newMp)
+  have k : ((compressedSuffix? mp).isSome = want ∨ taken = true →
+        (writeStep o ss1 mp).renamed = ss1.renamed ∧ ∃ sg, (writeStep o ss1 mp).writes = ss1.writes ++ [.file mp text sg]) ∧
+      ((compressedSuffix? mp).isSome ≠ want → taken = false →
+        (writeStep o ss1 mp).renamed = ss1.renamed ++ [(mp, newMp)] ∧
+          (∃ sg sg', (writeStep o ss1 mp).writes = ss1.writes ++ [.file mp text sg, .file newMp text sg', .unlink mp])) := key
+  by_cases hB : (compressedSuffix? mp).isSome = want
+  · obtain ⟨e1, sg, e2⟩ := k.1 (Or.inl hB)
+    exact Or.inl ⟨text, sg, e1, e2⟩
+  · by_cases hT : taken = true
+    · obtain ⟨e1, sg, e2⟩ := k.1 (Or.inr hT)
+      exact Or.inl ⟨text, sg, e1, e2⟩
+    · have hT1 : taken = false := by
+        cases hq : taken with
+        | false => rfl
+        | true => exact absurd hq hT
+      obtain ⟨e1, sg, sg', e2⟩ := k.2 hB hT1
+      refine Or.inr ⟨newMp, text, sg, sg', ?_, e1, e2⟩
+      by_cases hw : want = true
+      · exact Or.inl (if_pos hw)
+      · exact Or.inr ⟨_, if_neg hw⟩
 
 /-- a file literally named `Manifest` at the top is never compressed implicitly,
     and compression happens iff the uncompressed size reaches the watermark -/
